@@ -141,12 +141,23 @@ def size_sweep(chk, thorough, rng, cap):
             c = std[base]
             cfg = rawdrv.Cfg("v3", user="u" * L, engine=e, auth=c.auth, akt=c.akt, akm=c.akm, priv=c.priv, pkt=c.pkt, pkm=c.pkm)
             plans.append((base, cfg, [small[(L * 7 + j) % len(small)] for j in range(2)] + [big[(L * 11 + j * 5) % len(big)] for j in range(4)]))
+    # OID-level length forms: 1..3 OIDs whose contents are 120..135 / 250..262 octets long
+    for L in list(range(120, 136)) + list(range(250, 263)) + [300, 500]:
+        plans.append(("v2c-longoid", rawdrv.Cfg("v2c", community="public"), [(-L, 1), (-L, 2), (-L, 3)]))
+        if L % 3 == 0:
+            plans.append(("v3-md5-des", std["v3-md5-des"], [(-L, 1), (-L, 2)]))
     rec = trace.Recorder("c17api")
     runs = []
     for name, cfg, reqs in plans:
         a = rec.n
         s = rawdrv.RawSession(rec, cfg, maxbuf=cap)
         for (n, arcs) in reqs:
+            if n < 0:
+                from checks.c03 import long_oid
+                oids = [long_oid(-n, rng) for _ in range(arcs)]
+                s.send("get" if arcs == 1 else "get_many", oids)
+                chk.case(("size-longoid", name, -n, arcs))
+                continue
             oids = [oid_of(i, arcs) for i in range(max(0, n))]
             if n == 1:
                 s.send("get", oids)
